@@ -1249,6 +1249,39 @@ theorem C15_complex_redefining_position (tc fileStrict : Bool) (ps₁ ps₂ : Li
     rw [loopReadTC_clean hs (hp₁ p (by simp)), foldl_partAttrSevL_clean hs ps (fun x hx => hp₁ x (by simp [hx])), hat,
       foldl_partAttrSevL_clean hs ps₂ hp₂, greater_null_left, mergeAttr_null_left]
 
+/-- … with the table's rows spelled out at file level for such an instance standing alone among conforming ones (`fileSevForS`:
+    what one instance with that severity does to the file, `C15-7` shape): required attribute unset, STRICT mode ⇒ INCOMPLETE, exit 1;
+    required INTEGER/REAL/NUMBER/STRING `$`, LENIENT mode ⇒ user message, accepted — at any attribute position of any part, either
+    encoding -/
+theorem C15_complex_redefining_rows (tc : Bool) (ps₁ ps₂ : List (List Slot × List Tok)) {es₁ ts₁ es₂ ts₂}
+    (k : Kind) (r d : Bool) :
+    (∀ (_ : CleanPartsL tc true ps₁) (_ : CleanPartsL tc true ps₂)
+       (_ : if tc then CleanSlots true es₁ ts₁ else CleanPre true es₁ ts₁)
+       (_ : if tc then CleanSlots true es₂ ts₂ else CleanPre true es₂ ts₂)
+       (_ : tc = true → Tok.missing d :: ts₂ ≠ [Tok.missing false]),
+      let sev := (complexReadLS repairedShape tc (fileStrictFor true true)
+        (ps₁ ++ (es₁ ++ Slot.attr (posAttr k false r false) :: es₂, ts₁ ++ Tok.missing d :: ts₂) :: ps₂)).1
+      sev = .incomplete ∧ p21readExit (fileSevForS repairedShape ⟨sev, true⟩) = 1) ∧
+    (substitutable k = true →
+     ∀ (_ : CleanPartsL tc false ps₁) (_ : CleanPartsL tc false ps₂)
+       (_ : if tc then CleanSlots false es₁ ts₁ else CleanPre false es₁ ts₁)
+       (_ : if tc then CleanSlots false es₂ ts₂ else CleanPre false es₂ ts₂),
+      let sev := (complexReadLS repairedShape tc (fileStrictFor true false)
+        (ps₁ ++ (es₁ ++ Slot.attr (posAttr k false r false) :: es₂, ts₁ ++ Tok.missing true :: ts₂) :: ps₂)).1
+      sev = .usermsg ∧ accepted (fileSevForS repairedShape ⟨sev, true⟩) = true) := by
+  constructor
+  · intro hp₁ hp₂ h₁ h₂ hl sev
+    have hs : sev = .incomplete := by
+      simp only [sev]
+      rw [C15_complex_redefining_position tc true ps₁ ps₂ _ _ hp₁ hp₂ h₁ h₂ hl rfl, C15_attr_strict_required]
+    rw [hs]; exact ⟨rfl, rfl⟩
+  · intro hk hp₁ hp₂ h₁ h₂ sev
+    have hs : sev = .usermsg := by
+      simp only [sev]
+      rw [C15_complex_redefining_position tc false ps₁ ps₂ _ _ hp₁ hp₂ h₁ h₂ (by intro _ h; simp at h) rfl,
+        C15_attr_lenient_substitutes k r false false hk]
+    rw [hs]; exact ⟨rfl, rfl⟩
+
 theorem partAttrSevL_attrs (strict : Bool) : ∀ (as : List AttrD) (ts : List Tok) (acc : Sev),
     partAttrSevL true strict acc (as.map Slot.attr) ts = partAttrSev strict acc as ts
   | [], _, _ => by simp [partAttrSevL, partAttrSev]
